@@ -484,7 +484,9 @@ fn check_counters(ctx: &ModelCtx, rep: &Report, st: &mut Stats, apis: &[Api], h:
 #[derive(Clone)]
 pub enum Deep {
     Tuples { name: &'static str, alpha: &'static [u8], minlen: usize, maxlen: usize, k: usize, ci: bool },
-    Subs { word: Vec<u8>, maxk: usize, ci: bool },
+    /// `opts` = 2: each chosen substring plain or extended; 3: plain, extended,
+    /// or both (the substring and its extension as two patterns)
+    Subs { word: Vec<u8>, maxk: usize, ci: bool, opts: usize },
 }
 
 const EXT: [u8; 4] = [b'p', b'q', b'r', b's'];
@@ -493,7 +495,7 @@ impl Deep {
     pub fn name(&self) -> String {
         match self {
             Deep::Tuples { name, .. } => name.to_string(),
-            Deep::Subs { word, maxk, .. } => format!("subs({},{})", json::show(word), maxk),
+            Deep::Subs { word, maxk, opts, .. } => format!("subs({},{},{})", json::show(word), maxk, opts),
         }
     }
     pub fn ci(&self) -> bool {
@@ -529,13 +531,13 @@ impl Deep {
     fn size(&self, pool: &[Vec<u8>]) -> usize {
         match self {
             Deep::Tuples { k, .. } => pool.len().pow(*k as u32),
-            Deep::Subs { maxk, .. } => {
+            Deep::Subs { maxk, opts, .. } => {
                 let n = pool.len();
                 let mut total = 0usize;
                 let mut c = 1usize; // C(n, k)
                 for k in 1..=*maxk.min(&n) {
                     c = c * (n - k + 1) / k;
-                    total += c * (1 << k) * 2;
+                    total += c * opts.pow(k as u32) * 2;
                 }
                 total
             }
@@ -559,21 +561,27 @@ impl Deep {
                     f(&pats);
                 }
             }
-            Deep::Subs { maxk, .. } => {
+            Deep::Subs { maxk, opts, .. } => {
                 // subsets (as increasing index vectors) whose first element is `chunk`
                 let n = pool.len();
                 let mut idx: Vec<usize> = vec![chunk];
                 let mut pats: Pats = vec![];
                 loop {
                     let k = idx.len();
-                    for flags in 0..(1usize << k) {
+                    for flags in 0..opts.pow(k as u32) {
                         pats.clear();
+                        let mut fl = flags;
                         for (j, &i) in idx.iter().enumerate() {
-                            let mut p = pool[i].clone();
-                            if flags >> j & 1 == 1 {
-                                p.push(EXT[j]);
+                            let o = fl % opts;
+                            fl /= opts;
+                            if o != 1 {
+                                pats.push(pool[i].clone());
                             }
-                            pats.push(p);
+                            if o >= 1 {
+                                let mut p = pool[i].clone();
+                                p.push(EXT[j]);
+                                pats.push(p);
+                            }
                         }
                         f(&pats);
                         pats.reverse();
